@@ -63,7 +63,7 @@ CLAIMS = {
         "convItems_valid by induction, using C03/C15 - hence read back by `write` as exactly the converted instance), decoded_is_valid (what `write` reads "
         "is valid), write_conv_output_readable (Crd/Props/C10Conv.lean: for EVERY document, dictionary, command list and flag set, whatever `write conv` prints "
         "is read back by `write` as exactly the instances `write conv` had prepared - decoded input + `cmt` texts + flag overrides on the first instance; "
-        "override_valid, modifyCmt_valid, prepare_valid carry validity through the stages). Tie: `crd text conv` output re-read as raw YAML scalars and compared with the model's "
+        "override_valid, modifyCmt_valid, prepare_valid carry validity through the stages; write_conv_then_write: `write conv | write` with the same flags writes the prepared piece - override_idem, prepare_idem). Tie: `crd text conv` output re-read as raw YAML scalars and compared with the model's "
         "printed strings; `crd write conv -c cmt` (800 / 12,000 documents incl. flags, unknown and repeated commands) compared with the model, and on the real "
         "code `write conv | write event` compared with `write event` of the original document (real-vs-real oracle).",
    note="ASSUMED (not modelled): yaml.v3 Marshal/Unmarshal carries string scalars (any valid UTF-8) and mapping/sequence structure unchanged; exercised with "
